@@ -59,7 +59,16 @@ class ParsedHeaders(Mapping[bytes, Sequence[BaseHeader]]):
             #   https://github.com/python/typeshed/pull/4365
             # assign to hdr_name, hdr_value = ... instead.
             hdr_tuple = SMTP.header_source_parse(lines)
-            yield cls._registry(hdr_tuple[0], hdr_tuple[1])
+            try:
+                header = cls._registry(hdr_tuple[0], hdr_tuple[1])
+            except Exception:
+                # The parsers of email.headerregistry have no error path for
+                # a value they cannot digest: depending on the value and the
+                # Python version they raise IndexError, AttributeError,
+                # TypeError, RecursionError... Such a header is treated as
+                # an empty header of the same type.
+                header = cls._registry(hdr_tuple[0], '')
+            yield header
 
     def __repr__(self) -> str:
         return repr(dict(self))
